@@ -282,7 +282,18 @@ class TokMatcher:
         self.eid, self.ok, self.details, self.env = eid, ok, details, env
 
     def match(self, value):
-        return None if self.ok else TokMismatch(self.eid, self.details, self.env)
+        if self.ok:
+            return None
+        tm = TokMismatch(self.eid, self.details, self.env)
+        if len(self.eid) % 2:
+            return tm
+        # the stock Mismatch class, the way a matcher that collects as it goes uses it: handed a (still empty) dict at
+        # construction, which is filled in afterwards
+        from testtools.matchers import Mismatch
+        bag = {}
+        mm = Mismatch(tm.describe(), bag)
+        bag.update(tm.get_details())
+        return mm
 
     def __str__(self):
         return "TokMatcher(%s)" % self.eid
